@@ -159,3 +159,64 @@ pub fn check(acts: &[Activation], err: &ErrInfo, sorted_ok: impl Fn(&[String]) -
     }
     problems
 }
+
+/// "Not inside an atomic rule's interior" is a fact about the grammar, not about what the parser
+/// state happens to hold: recompute, from the rule modifiers alone, the atomicity every rule must be
+/// entered with, and compare with what the state had at that entry.
+///
+/// Model (what `@`, `$`, `!` are documented to do; silent rules write no events and change nothing):
+/// a `$` rule is entered compound-atomic and a `!` rule non-atomic; every other rule is entered with
+/// the interior atomicity of the innermost open rule, which is atomic for `@`, compound-atomic for
+/// `$`, non-atomic for `!`, inherited for a normal rule, and atomic inside WHITESPACE / COMMENT of
+/// whatever modifier except `$` (their bodies never skip). The start rule's surroundings are
+/// non-atomic. When the grammar has a silent WHITESPACE or COMMENT, its (invisible) interior is
+/// atomic, so an atomic entry is accepted wherever it is seen.
+pub fn check_atomicity(events: &[Event], types: &std::collections::HashMap<String, pest_meta::ast::RuleType>) -> Vec<String> {
+    use pest_meta::ast::RuleType as T;
+    const AT: u8 = 0;
+    const CA: u8 = 1;
+    const NA: u8 = 2;
+    let silent_skip = ["WHITESPACE", "COMMENT"].iter().any(|n| types.get(*n) == Some(&T::Silent));
+    let mut problems = vec![];
+    // interior atomicity of the open activations
+    let mut open: Vec<u8> = vec![];
+    for e in events {
+        match e {
+            Event::RuleEnter { rule, atomicity, pos, .. } => {
+                let name = strip(rule);
+                let Some(ty) = types.get(&name) else {
+                    // a built-in that goes through `rule()` (e.g. EOI): entered as it is, changes nothing
+                    open.push(open.last().copied().unwrap_or(NA));
+                    continue;
+                };
+                let parent = open.last().copied().unwrap_or(NA);
+                let expected_entry = match ty {
+                    T::CompoundAtomic => CA,
+                    T::NonAtomic => NA,
+                    _ => parent,
+                };
+                if *atomicity != expected_entry && !(silent_skip && *atomicity == AT) && problems.len() < 3 {
+                    let nm = |a: u8| ["atomic", "compound-atomic", "non-atomic"].get(a as usize).copied().unwrap_or("?");
+                    problems.push(format!(
+                        "atomicity: rule {name} was entered at {pos} in {} mode, but the rule modifiers of the open rules dictate {} (so whether it is reportable was decided wrongly)",
+                        nm(*atomicity), nm(expected_entry)
+                    ));
+                }
+                let skip_rule = name == "WHITESPACE" || name == "COMMENT";
+                let interior = match ty {
+                    T::Atomic => AT,
+                    T::CompoundAtomic => CA,
+                    _ if skip_rule => AT,
+                    T::NonAtomic => NA,
+                    _ => expected_entry,
+                };
+                open.push(interior);
+            }
+            Event::RuleExit { .. } => {
+                open.pop();
+            }
+            _ => {}
+        }
+    }
+    problems
+}
